@@ -936,6 +936,8 @@ def gen_lme_fit(rng, idx, indep):
     noise = rng.uniform(0.1, 0.3)
     beta0, beta1 = rng.uniform(-1, 3), rng.uniform(-0.8, 0.8)
     centre, spread = rng.uniform(60, 80), rng.uniform(4, 8)
+    # the unit of the feature is arbitrary (a diffusivity in mm2/s is ~1e-3, a volume in mm3 ~1e3): the estimators are equivariant
+    unit = rng.choice([1.0, 1.0, 1.0, 1e-2, 1e-3, 1e-4, 1e3])
 
     def subject(ident, n):
         z0, z1 = rng.gauss(0, 1), rng.gauss(0, 1)
@@ -946,7 +948,7 @@ def gen_lme_fit(rng, idx, indep):
         out = []
         for a in ages:
             y = beta0 + b0 + (beta1 + b1) * (a - centre) / spread + rng.gauss(0, noise)
-            out.append([ident, a, f32(y)])
+            out.append([ident, a, f32(unit * y)])
         return out
 
     train = []
@@ -961,7 +963,7 @@ def gen_lme_fit(rng, idx, indep):
         new += rows
     rng.shuffle(train)
     drop = rng.random() < 0.5
-    return {"kind": "lme-fit", "slope": slope, "train": train, "new": new, "drop_full_nan": drop,
+    return {"kind": "lme-fit", "slope": slope, "unit": unit, "train": train, "new": new, "drop_full_nan": drop,
             "force_independent_random_effects": slope and rng.random() < 0.25, "indep": indep,
             "query_ages": [rng.randrange(400, 720) / 8.0 for _ in range(3)]}
 
